@@ -40,6 +40,7 @@ TIERS = {
     "quick": {"workers": 4, "random": 140, "targeted": 1},
     "thorough": {"workers": 16, "random": 1500, "targeted": 4, "pytest": False, "hard_timeout": 3300},
 }
+HARNESS_FAULT_DISCARDS = ["script_step_without_target", "script_op_not_applicable", "script_mutation_not_applicable"]
 MIN = {"quick": {"C19.events": 5000, "C19.twin_comparisons": 5000, "C19.frame_checks": 5000, "C19.mutations": 150},
        "thorough": {"C19.events": 100000, "C19.twin_comparisons": 100000}}
 
@@ -466,7 +467,7 @@ def run_history(c, stats):
             answered += 1
             changed_allowed = set()
             k = kind_of(ans) if ok else None
-            if k is not None and len(pool) < 14:
+            if k is not None and len(pool) < nbase + 5:
                 # the result joins the pool (conversions of conversions; may be mutated later)
                 same = [i for i, e in enumerate(pool) if ans is e["obj"]]
                 pool.append({"obj": ans, "origin": ["op", name, tref, orefs, arg], "muts": [], "kind": k,
